@@ -37,6 +37,7 @@ CONSTANTS NC,            \* number of circuit keys
           InvDelta,      \* Terms.FinalCltvDelta of the pre-created invoices
           RejectDelta,   \* RegistryConfig.FinalCltvRejectDelta (= delta of keysend invoices)
           MaxHeight, MaxNow,
+          Amts, Tots,    \* HTLC amounts and declared totals the model checker sends ({V-1, V/2, V, V+1}, {V-1, V, V+1})
           KeysendQuirk   \* TRUE: model processKeySend's expiry pre-check on replays (deviation D1)
 
 VARIABLES kinds,     \* <<kind of slot 1, kind of slot 2>>: what was added with AddInvoice at start (never changes)
@@ -324,8 +325,6 @@ Block == /\ height < MaxHeight
 (* The HTLCs the model checker sends: amounts around the value, totals     *)
 (* matching / mismatching / too low, right / other / nobody's / no         *)
 (* address, expiry at the required margin -1 / 0 / +1.                     *)
-Amts == {V - 1, V \div 2, V, V + 1}
-Tots == {V - 1, V, V + 1}
 ExpOf(k, m) == height + Need(k) + m
 HasKind(x) == kinds[1] = x \/ kinds[2] = x
 Params(c) ==
